@@ -5,6 +5,7 @@ import struct
 from ..astutil import aug_form, dotted, method_call
 from ..cfg import canon_test, cfg_of, fact_key, norm, walk_own
 from ..consteval import Scope, fold_in
+from ..flow import unchanged_param
 from ..mutate import B, M
 from ..symexpr import canon
 
@@ -216,6 +217,12 @@ def check(ctx):
     apps = [c for c in walk_own(lp[0]) if method_call(c, 'append')]
     ok = ok and len(apps) == 1 and any(isinstance(s_, ast.Expr) and s_.value is apps[0] for s_ in lp[0].body)
     ctx.inst('R5', ub, 'every-byte-once-in-order', ok, 'bytes buff[0..len) are appended once each, in order')
+    # ... of the buffer the caller handed over: it is not replaced, trimmed or filtered on the way to the loop (bytes that are not
+    # uploaded keep whatever the previous page left in the bootloader's buffer)
+    gub0 = cfg_of(ub)
+    lpn = [n for n in gub0.nodes if n.ast is lp[0]]
+    ctx.inst('R5', ub, 'buffer-as-given', bool(lpn) and unchanged_param(gub0, lpn[0], b) and not any(isinstance(x, ast.Name) and x.id == b and isinstance(x.ctx, ast.Store) for x in ast.walk(ub.node)),
+             'upload_buffer walks the %s it was given (not a re-bound, stripped or filtered copy)' % b)
     cnt = [s for s in lp[0].body if aug_form(s) and aug_form(s)[0] == count] if lp else []
     rs = [s for s in walk_own(fl[0]) if isinstance(s, ast.Assign) and norm(s.targets[0]) == count and not aug_form(s)]
     ctx.inst('R5', ub, 'count-bookkeeping', len(cnt) == 1 and aug_form(cnt[0])[1] is ast.Add and fold_in(ub, aug_form(cnt[0])[2]) == 1 and len(rs) == 1 and fold_in(ub, rs[0].value) == 0, 'count += 1 per byte, reset to 0 at each flush')
